@@ -293,3 +293,63 @@ ops_harness!(c13_disconnect_direct_writer, 8, {
     let _ = if with_reason { conn.disconnect_with(Disconnect::with_reason(ReasonCode::DisconnectWithWill)) } else { conn.disconnect() };
     unsafe { pd::LIVE_PTR = core::ptr::null() };
 });
+
+// @harness props=C01,C11,C14,C19,C09 tier=quick layer=L3p unwind=14
+// @harness funcs="Connection::publish (QoS 0 path), MqttSerializer::encode_publish, write_all, RuntimeState::note_outbound_activity (projection)"
+// @harness sym="live, validity answer, scratch size answer, Maximum Packet Size, requested QoS with downgrade to 0, payload byte, every write/flush outcome, partial writes, in-progress entry at entry, drain outcome" bounds="PUBLISH 'a' + 1 payload byte (7 bytes)"
+// @harness assumes="A2; valid_for answer arbitrary; K7 (scratch_space real on an empty arena)"
+ops_harness!(c01_publish_q0_direct_write, 14, {
+    pd::reset_all();
+    let mut rx = [0u8; 8];
+    let mut tx = [0u8; 24];
+    let downgrade: bool = kani::any();
+    let mut cfg = ConfigBuilder::new(Buffers::new(&mut rx, &mut tx));
+    if downgrade {
+        cfg = cfg.autodowngrade_qos();
+    }
+    let mut session = Session::new(cfg);
+    g::any_current(0, 3);
+    session.runtime.send_quota = kani::any();
+    session.runtime.max_qos = if downgrade { Some(QoS::AtMostOnce) } else { None };
+    session.runtime.maximum_packet_size = if kani::any() { Some(kani::any()) } else { None };
+    unsafe {
+        g::SCRATCH = kani::any();
+        xp::VALID = kani::any();
+    }
+    let q0 = session.runtime.send_quota;
+    let live: bool = kani::any();
+    let qos = if downgrade { any_qos12() } else { QoS::AtMostOnce };
+    let mut conn = Connection { session: &mut session, io: SymIoP, event: ConnectEvent::Connected, live };
+    let payload: [u8; 1] = kani::any();
+    let res = conn.publish(Publication::bytes("a", &payload).qos(qos));
+    unsafe {
+        assert!(conn.session.runtime.send_quota == q0 && g::N_RETAIN == 0, "C06/C19: a QoS 0 publish (also after downgrade) consumes no quota and retains nothing");
+        if !live {
+            assert!(matches!(res, Err(PubError::Session(Error::Disconnected))) && g::IO_WRITES == 0 && g::LOG_N == 0, "C11: a dead handle did something");
+        } else if !xp::VALID {
+            // (publish drains earlier traffic before validating, so a drain error may come first)
+            assert!(res.is_err() && g::IO_ACC_N == 0, "C19: a publish with invalid properties reached the wire");
+            assert!(matches!(res, Err(PubError::Session(Error::InvalidRequest))) || g::first(g::E_DRAIN_ERR) != usize::MAX, "C19: invalid properties must be refused with InvalidRequest");
+        }
+        match &res {
+            Ok(op) => {
+                assert!(op.is_none(), "C19: a QoS 0 publish returns no operation handle");
+                // 30 05 00 01 'a' 00 <payload>
+                assert!(g::IO_ACC_N == 7 && g::IO_ACC[0] == 0x30 && g::IO_ACC[1] == 5 && g::IO_ACC[4] == b'a' && g::IO_ACC[5] == 0 && g::IO_ACC[6] == payload[0], "C09/C19: the PUBLISH on the wire is QoS 0 with the requested topic and payload");
+                assert!(conn.session.runtime.maximum_packet_size.map_or(true, |m| 7 <= m as usize), "C14: a PUBLISH longer than the broker's Maximum Packet Size was sent");
+                assert!(g::IO_FLUSH_OK >= 1 && conn.live && xp::VALID);
+                assert!(g::first(g::E_DRAIN_OK) < g::first(g::E_IO_WRITE), "C01/O3: QoS 0 PUBLISH written without draining first");
+            }
+            Err(PubError::Session(Error::Transport(_))) => assert!(!conn.live, "C11: transport error without latch"),
+            Err(PubError::Session(Error::Resource(ResourceError::PacketTooLarge))) => {
+                assert!(g::IO_ACC_N == 0 || pd::N_DRAIN >= 1, "C14: oversize PUBLISH reached the wire");
+            }
+            _ => {}
+        }
+        // whatever was written directly is a prefix of the one PUBLISH (partial on error only)
+        assert!(g::IO_ACC_N <= 7, "C01: more than one packet's bytes were written");
+    }
+    kani::cover!(matches!(res, Ok(None)) && downgrade);
+    kani::cover!(matches!(res, Ok(None)) && !downgrade);
+    kani::cover!(matches!(res, Err(PubError::Session(Error::Transport(_)))));
+});
